@@ -23,9 +23,21 @@ type RowFmtPackage struct {
 
 // ReadFrom implements the tds.Package interface.
 func (pkg *RowFmtPackage) ReadFrom(ch BytesChannel) error {
-	totalLength, err := ch.Uint32()
-	if err != nil {
-		return ErrNotEnoughBytes
+	// The length is four bytes for TDS_ROWFMT2 and two bytes for
+	// TDS_ROWFMT.
+	var totalLength uint32
+	if pkg.wide {
+		length, err := ch.Uint32()
+		if err != nil {
+			return ErrNotEnoughBytes
+		}
+		totalLength = length
+	} else {
+		length, err := ch.Uint16()
+		if err != nil {
+			return ErrNotEnoughBytes
+		}
+		totalLength = uint32(length)
 	}
 
 	colCount, err := ch.Uint16()
